@@ -43,7 +43,7 @@ pub struct Case {
 #[derive(Clone, Copy)]
 pub struct C02;
 
-pub const BOMB_KINDS: [&str; 11] = ["nested_members", "nested_bare", "nested_unclosed", "nested_in_set", "nested_named_begins", "nested_named_members", "nested_seeded", "wide_set", "many_groups", "many_attrs", "wide_collection"];
+pub const BOMB_KINDS: [&str; 12] = ["nested_with_delimiters", "nested_members", "nested_bare", "nested_unclosed", "nested_in_set", "nested_named_begins", "nested_named_members", "nested_seeded", "wide_set", "many_groups", "many_attrs", "wide_collection"];
 
 fn elem(out: &mut Vec<u8>, tag: u8, name: &[u8], value: &[u8]) {
     out.push(tag);
@@ -108,6 +108,22 @@ pub fn bomb(kind: &str, n: u32) -> Vec<u8> {
                 elem(&mut b, 0x37, b"", b"");
             }
         }
+        "nested_with_delimiters" => {
+            // a delimiter byte every 100 levels inside the unterminated nesting
+            elem(&mut b, 0x34, b"a", b"");
+            for i in 1..n {
+                if i % 100 == 0 {
+                    b.push(0x02);
+                    elem(&mut b, 0x34, b"g", b"");
+                } else {
+                    elem(&mut b, 0x4a, b"", b"m");
+                    elem(&mut b, 0x34, b"", b"");
+                }
+            }
+            for _ in 0..n {
+                elem(&mut b, 0x37, b"", b"");
+            }
+        }
         "nested_named_members" => {
             // member names carried in the *name* field of the memberAttrName element
             elem(&mut b, 0x34, b"a", b"");
@@ -120,14 +136,15 @@ pub fn bomb(kind: &str, n: u32) -> Vec<u8> {
             }
         }
         "nested_seeded" => {
-            // n is depth and seed: every level draws one of six shapes (named / unnamed begin, member name in the
-            // value or the name field, a scalar sibling, an early end followed by a re-open)
+            // n is depth and seed: every level draws one of seven shapes (named / unnamed begin, member name in the
+            // value or the name field, a scalar sibling, an early end followed by a re-open, a group delimiter inside the
+            // open collections)
             let mut x = n as u64 ^ 0x9e37_79b9_7f4a_7c15;
             let depth = 130 + (n % 30_000);
             elem(&mut b, 0x34, b"a", b"");
             let mut open = 1usize;
             for _ in 1..depth {
-                let r = crate::rng::splitmix(&mut x) % 6;
+                let r = crate::rng::splitmix(&mut x) % 7;
                 match r {
                     0 => {
                         elem(&mut b, 0x4a, b"", b"m");
@@ -146,6 +163,12 @@ pub fn bomb(kind: &str, n: u32) -> Vec<u8> {
                     }
                     3 => {
                         elem(&mut b, 0x34, b"", b"");
+                        open += 1;
+                    }
+                    6 => {
+                        // a group delimiter in the middle of the open collections, then the nesting goes on
+                        b.push([0x01u8, 0x02, 0x04, 0x05][(crate::rng::splitmix(&mut x) % 4) as usize]);
+                        elem(&mut b, 0x34, b"g", b"");
                         open += 1;
                     }
                     4 => {
@@ -206,11 +229,11 @@ fn bombs(tier: Tier) -> Vec<(&'static str, u32)> {
         Tier::Quick => &[64, 1000, 20_000, 100_000],
         Tier::Thorough => &[8, 64, 129, 500, 1000, 4000, 9000, 20_000, 50_000, 100_000],
     };
-    for k in ["nested_members", "nested_bare", "nested_unclosed", "nested_in_set", "nested_named_begins", "nested_named_members"] {
+    for k in ["nested_members", "nested_bare", "nested_unclosed", "nested_in_set", "nested_named_begins", "nested_named_members", "nested_with_delimiters"] {
         for &d in depths {
             // keep every bomb <= 1 MiB
             let per = match k {
-                "nested_members" | "nested_unclosed" | "nested_named_members" => 17,
+                "nested_members" | "nested_unclosed" | "nested_named_members" | "nested_with_delimiters" => 17,
                 "nested_named_begins" => 18,
                 "nested_in_set" => 31,
                 _ => 10,
